@@ -109,6 +109,39 @@ func c20Families() []costFamily {
 		{"or-tautologies", func(n int) string { return "SELECT a FROM t WHERE c = 0" + rep(" OR 1 = 1", n) }, 500},
 		{"tautology-statements", func(n int) string { return rep("SELECT * FROM t WHERE a = 1 OR 1=1;\n", n) }, 500},
 		{"match-against-nest", func(n int) string { return "SELECT " + rep("MATCH(a) AGAINST (", n) + "'x'" + rep(")", n) + " FROM t" }, 200},
+		{"setop-alternating", func(n int) string { return "SELECT 1" + rep(" UNION SELECT 1 EXCEPT SELECT 1 UNION ALL SELECT 1 INTERSECT SELECT 1", n) }, 200},
+		{"many-ctes", func(n int) string {
+			var sb strings.Builder
+			sb.WriteString("WITH c0 AS (SELECT 1)")
+			for i := 1; i <= n; i++ {
+				sb.WriteString(", c")
+				sb.WriteString(strconv.Itoa(i))
+				sb.WriteString(" AS (SELECT 1)")
+			}
+			sb.WriteString(" SELECT * FROM c0")
+			return sb.String()
+		}, 300},
+		{"many-distinct-columns", func(n int) string {
+			var sb strings.Builder
+			sb.WriteString("CREATE TABLE t (c0 INT")
+			for i := 1; i <= n; i++ {
+				sb.WriteString(", c")
+				sb.WriteString(strconv.Itoa(i))
+				sb.WriteString(" INT")
+			}
+			sb.WriteString(")")
+			return sb.String()
+		}, 500},
+		{"many-distinct-aliases", func(n int) string {
+			var sb strings.Builder
+			sb.WriteString("SELECT a AS x0")
+			for i := 1; i <= n; i++ {
+				sb.WriteString(", a AS x")
+				sb.WriteString(strconv.Itoa(i))
+			}
+			sb.WriteString(" FROM t")
+			return sb.String()
+		}, 500},
 		{"cast-type-params", func(n int) string { return "SELECT CAST(x AS DECIMAL(1" + rep(",1", n) + ")) FROM t" }, 500},
 		{"match-mode-words", func(n int) string { return "SELECT MATCH(a) AGAINST ('x'" + rep(" w", n) + ") FROM t" }, 500},
 		{"sign-chain-not", func(n int) string { return "SELECT a FROM t WHERE a = 1" + rep(" AND NOT a = 1", n) }, 500},
